@@ -1,6 +1,6 @@
 (* C19 - property theorems only: each closed by [exact], Print Assumptions beneath. *)
 From Coq Require Import List NArith.
-From TatsuV Require Import Base.PyStr Lib.Rle Lib.RleProof Lib.Queue Lib.QueueProof.
+From TatsuV Require Import Base.PyStr Lib.Rle Lib.RleProof Lib.Queue Lib.QueueProof Lib.QueueGen Lib.QueueGenProof.
 Import ListNotations.
 Local Open Scope nat_scope.
 
@@ -46,3 +46,30 @@ Example C19_queue_example :
   let ops := [Send (Good 1); Send Corrupt; Recv 1; Send (Good 2); Recv 2; Send (Good 3); Recv 4] in
   NoDup (goods (fst (run ops))) /\ delivered (snd (run ops)) = [1; 2; 3]%N.
 Proof. split; [repeat constructor; cbn; intuition discriminate | reflexivity]. Qed.
+
+(* receive() is a generator: any number of live generators on ONE reader object, advanced in any order with sends in
+   between (each keeps its own position in the file, _told and _seen are shared): what has been delivered is exactly
+   the good packets among the first _told lines, in file order, none twice; every yield delivers exactly one new
+   packet and a generator that runs to its end leaves nothing undelivered. *)
+Theorem C19_queue_generators_exactly_once_in_order : forall ops : list gop,
+  NoDup (goods (gfile (grun ops))) ->
+  delivered (grd (grun ops)) = goods (firstn (told (grd (grun ops))) (gfile (grun ops)))
+  /\ told (grd (grun ops)) <= length (gfile (grun ops))
+  /\ NoDup (delivered (grd (grun ops))).
+Proof. exact generators_exactly_once_in_order. Qed.
+Print Assumptions C19_queue_generators_exactly_once_in_order.
+
+Theorem C19_queue_generator_next_delivers : forall (ops : list gop) j p,
+  NoDup (goods (gfile (grun ops))) -> nth_error (gens (grun ops)) j = Some (Some p) ->
+  forall y p' r', gstep (skipn p (gfile (grun ops))) p (grd (grun ops)) = (y, p', r') ->
+  (y = true -> exists i, delivered r' = delivered (grd (grun ops)) ++ [i])
+  /\ (y = false -> delivered r' = goods (gfile (grun ops))).
+Proof. exact generator_next_delivers. Qed.
+Print Assumptions C19_queue_generator_next_delivers.
+
+(* non-vacuity: one generator is suspended after its first packet, a second one drains the queue, the first resumes *)
+Example C19_queue_generators_example :
+  let ops := [GSend (Good 1); GSend (Good 2); GSend Corrupt; GSend (Good 3); GOpen; GNext 0; GOpen; GNext 1; GNext 1; GNext 1;
+              GSend (Good 4); GNext 0; GNext 0] in
+  NoDup (goods (gfile (grun ops))) /\ delivered (grd (grun ops)) = [1; 2; 3; 4]%N /\ gens (grun ops) = [None; None].
+Proof. split; [repeat constructor; cbn; intuition discriminate | split; reflexivity]. Qed.
